@@ -62,6 +62,32 @@ Section ReceiverSpec.
 End ReceiverSpec.
 Arguments more_msgs {A B}. Arguments more_reply {U}. Arguments final_reply {A B U}.
 
+(* ---------- the receiver over several connections of one stub value ---------- *)
+Section SessionSpec.
+  Variables A B : Type.
+  (* how a connection's synchronisation ends: with the message not flagged More, or with
+     the loss of the connection before that message (the runtime gave up: a later chunk
+     could not be sent, a time-out, a restart of either side) *)
+  Inductive session_end :=
+  | SFinal (lp : list A) (lc : list B)
+  | SClosed.
+  (* a connection: the groups sent flagged More, and how it ended *)
+  Definition session := (list (list A * list B) * session_end)%type.
+
+  Definition session_msgs (s : session) : list (chunk A B) :=
+    more_msgs (fst s) ++ match snd s with SFinal lp lc => [(lp, lc, false)] | SClosed => [] end.
+
+  (* what the plugin's handler is owed for a connection: nothing if it was lost before the
+     last message, otherwise one invocation with the objects of THIS connection, in order *)
+  Definition session_delivery (s : session) : list (list A * list B) :=
+    match snd s with
+    | SFinal lp lc => [(concat (map fst (fst s)) ++ lp, concat (map snd (fst s)) ++ lc)]
+    | SClosed => []
+    end.
+End SessionSpec.
+Arguments SFinal {A B}. Arguments SClosed {A B}.
+Arguments session_msgs {A B}. Arguments session_delivery {A B}.
+
 (* l = pre ++ m ++ post : m is a group of consecutive elements of l *)
 Definition infix {X} (m l : list X) : Prop := exists pre post, l = pre ++ m ++ post.
 
